@@ -380,6 +380,40 @@ func noMergeCfg() bx.Config {
 	return cfg
 }
 
+// regroup re-partitions a history into batches of about n acts each (ops on the
+// same id inside one new batch are collapsed, last one wins - C01).
+func regroup(h history, n int) [][]call {
+	var out [][]call
+	var cur []call
+	flush := func() {
+		if len(cur) == 0 {
+			return
+		}
+		last := map[string]call{}
+		var order []string
+		for _, c := range cur {
+			if _, ok := last[c.ID]; !ok {
+				order = append(order, c.ID)
+			}
+			last[c.ID] = c
+		}
+		var b []call
+		for _, id := range order {
+			b = append(b, last[id])
+		}
+		out = append(out, b)
+		cur = nil
+	}
+	for i, cs := range h.Acts {
+		cur = append(cur, cs...)
+		if (i+1)%n == 0 {
+			flush()
+		}
+	}
+	flush()
+	return out
+}
+
 // noMergeLayout: many file segments, answers before and after reopen (no merge at all).
 func noMergeLayout() layout {
 	return layout{"disk-nomerge", func(c *core.Ctx, h history) ([]any, error) {
@@ -395,7 +429,9 @@ func noMergeLayout() layout {
 				_ = idx.Close()
 			}
 		}()
-		for _, cs := range oneCallPerBatch(h) {
+		// group the history into batches of several documents so that file
+		// segments keep some live documents next to deleted ones
+		for _, cs := range regroup(h, 3) {
 			if err := applyBatch(idx, cs); err != nil {
 				return nil, err
 			}
